@@ -89,9 +89,18 @@ class SymTracer(core.Tracer):
         raise Unsupported("numpy conversion of a symbolic array (use the np shim)")
 
 
+# arithmetic primitives that are evaluated exactly (on rationals) even when all inputs are concrete floats, when the
+# trace runs in exact mode: otherwise a concrete float sub-computation is rounded by JAX and an exact-arithmetic
+# identity that holds for the real-number semantics fails by 1 ulp (seen with an equivalent rewrite of the VI kernel)
+EXACT_PRIMS = {"add", "sub", "mul", "div", "neg", "dot_general", "reduce_sum", "reduce_max", "reduce_min", "max", "min", "select_n",
+               "integer_pow", "square", "abs", "cumsum", "broadcast_in_dim", "reshape", "squeeze", "concatenate", "slice", "gather",
+               "dynamic_slice", "transpose", "rev", "convert_element_type", "expand_dims", "scatter-add", "scatter_add", "scatter", "clamp"}
+
+
 class SymTrace(core.Trace):
-    def __init__(self):
+    def __init__(self, exact=False):
         super().__init__()
+        self.exact = exact
 
     def stage_value(self, val):
         return core.eval_trace.stage_value(val)
@@ -103,7 +112,8 @@ class SymTrace(core.Trace):
 
     def wrap(self, o, aval):
         if zx.is_sym(o):
-            if zx.has_z(o):
+            if zx.has_z(o) or (self.exact and np.issubdtype(np.dtype(aval.dtype), np.floating) and o.size
+                               and not any(isinstance(v, float) for v in o.flat)):
                 return SymTracer(self, o, core.ShapedArray(tuple(aval.shape), aval.dtype))
             o = zx.to_concrete(o, np.dtype(aval.dtype))
         return jnp.asarray(np.asarray(o), dtype=aval.dtype)
@@ -111,7 +121,8 @@ class SymTrace(core.Trace):
     def process_primitive(self, prim, tracers, params):
         with core.set_current_trace(core.eval_trace):
             if not any(isinstance(t, SymTracer) for t in tracers):
-                return prim.bind(*tracers, **params)
+                if not (self.exact and prim.name in rules.EXACT_PRIMS and prim.name in rules.RULES and self._exact_worthwhile(tracers)):
+                    return prim.bind(*tracers, **params)
             avals_in = [t.aval if isinstance(t, SymTracer) else core.typeof(t) for t in tracers]
             out_avals, _ = prim.abstract_eval(*avals_in, **params)
             vals = [self.to_val(t) for t in tracers]
@@ -119,6 +130,19 @@ class SymTrace(core.Trace):
             if prim.multiple_results:
                 return [self.wrap(o, a) for o, a in zip(outs, out_avals)]
             return self.wrap(outs, out_avals)
+
+    @staticmethod
+    def _exact_worthwhile(tracers):
+        fl = False
+        for t in tracers:
+            a = np.asarray(t)
+            if a.size > 20000:
+                return False
+            if np.issubdtype(a.dtype, np.floating):
+                if not np.isfinite(a).all():
+                    return False
+                fl = True
+        return fl
 
     def process_call(self, call_primitive, f, tracers, params):
         raise Unsupported("process_call")
@@ -136,17 +160,19 @@ TRACE = None
 
 
 @contextlib.contextmanager
-def symbolic():
+def symbolic(exact=False):
     """Activate a fresh SymTrace (and clear JAX's caches: cached jaxprs hold concrete tables)."""
     global TRACE
     jax.clear_caches()
-    tr = SymTrace()
+    tr = SymTrace(exact=exact)
     prev, TRACE = TRACE, tr
+    prev_exact, rules.EXACT[0] = rules.EXACT[0], exact
     try:
         with core.set_current_trace(tr):
             yield tr
     finally:
         TRACE = prev
+        rules.EXACT[0] = prev_exact
 
 
 def lift(arr, dtype=None):
